@@ -153,6 +153,54 @@ def judge(r, b, c):
     return v
 
 
+def run_rebuild(arg):
+    idx, (b1, b2), scratch = arg
+    root = os.path.join(scratch, f"c17r-{os.getpid()}-{idx}")
+    sc = {"root": {"cfg": b1, "body": [{"op": "sbom"}, {"op": "rebuild", "cfg": b2, "body": [{"op": "sbom"}]}]}, "panic_at": None}
+    r = run_scenario(root, sc)
+    r["root"] = root
+    shutil.rmtree(root, ignore_errors=True)
+    return r
+
+
+def judge_rebuild(r, b1, b2):
+    v = []
+    dec = []
+    for e in r["log"]:
+        try:
+            dec.append(decode(e))
+        except ParseError as ex:
+            v.append(("argv-not-parseable", f"{e['prog']} {e['argv']}: {ex}"))
+    if r["outcome"] != "ok":
+        v.append(("run-failed", f"scenario ended with {r['outcome']}: {r.get('message', '')[:200]}"))
+    builds = [d for d in dec if d["kind"] == "pack-build"]
+    if len(builds) != 2:
+        v.append(("pack-build-count", f"{len(builds)} pack build invocations for build + rebuild"))
+        return v
+    if builds[0]["image"] != builds[1]["image"]:
+        v.append(("rebuild-image", f"rebuild used image {builds[1]['image']!r}, the build {builds[0]['image']!r}"))
+    for which, pb, b in (("build", builds[0], b1), ("rebuild", builds[1], b2)):
+        get = lambda k: [val for kk, val in pb["opts"] if kk == k]
+        if get("builder") != [b["builder"]]:
+            v.append((f"{which}-builder", f"{which}: pack --builder {get('builder')}, configured {b['builder']!r}"))
+        if get("buildpack") != b["buildpacks"]:
+            v.append((f"{which}-buildpacks", f"{which}: pack --buildpack {get('buildpack')}, configured {b['buildpacks']}"))
+        envs = sorted(tuple(x.split("=", 1)) if "=" in x else (x, None) for x in get("env"))
+        if envs != sorted((k, val) for k, val in b["env"]):
+            v.append((f"{which}-env", f"{which}: pack --env decodes to {envs}, configured {b['env']}"))
+        caches = sorted(get("cache"))
+        if caches != sorted(c for c in [f"type=build;format=volume;name={pb['image']}.build-cache", f"type=launch;format=volume;name={pb['image']}.launch-cache"]):
+            v.append((f"{which}-cache-volumes", f"{which}: pack --cache {caches}"))
+    sboms = [d for d in dec if d["kind"] == "pack-sbom"]
+    if len(sboms) != 2:
+        v.append(("sbom-download-count", f"{len(sboms)} pack sbom download invocations"))
+    for sd in sboms:
+        outdir = [val for kk, val in sd["opts"] if kk == "output-dir"]
+        if sd["image"] != builds[0]["image"] or len(outdir) != 1 or not outdir[0].startswith(os.path.join(r["root"], "tmp")):
+            v.append(("sbom-download-args", f"pack sbom download {sd['image']!r} --output-dir {outdir}"))
+    return v
+
+
 def run(ctx):
     res = Result(ctx, "exploration")
     for p in (RUNNER, FAKECLI):
@@ -173,7 +221,19 @@ def run(ctx):
                 for e in r["log"]:
                     print("  ", e["prog"], e["argv"])
             res.violation(sig, f"build {b}, container {c}: {what}", {"build": b, "container": c})
-    res.cov("evaluations", len(cfgs))
+    # build + rebuild with different configurations, SBOM download in both
+    bd = build_field_domains()
+    variants = [dict(BUILD_DEFAULT, builder=x) for x in bd["builder"][:4]] + [dict(BUILD_DEFAULT, env=x) for x in bd["env"][1:12:2]] + [dict(BUILD_DEFAULT, buildpacks=x) for x in bd["buildpacks"][::9][:6]]
+    pairs = [(a, b) for a in variants[::2] for b in variants[1::2]] if ctx.thorough else list(zip(variants, variants[1:] + variants[:1]))
+    if ctx.replay:
+        pairs = []
+    with ProcessPoolExecutor(max_workers=16) as ex:
+        rres = list(ex.map(run_rebuild, [(i, p, ctx.scratch) for i, p in enumerate(pairs)], chunksize=4))
+    for (b1, b2), r in zip(pairs, rres):
+        for sig, what in judge_rebuild(r, b1, b2):
+            res.violation("rebuild:" + sig, f"build {b1} then rebuild {b2}: {what}", {"build": b1, "rebuild": b2})
+    res.cov("rebuild_pairs", len(pairs))
+    res.cov("evaluations", len(cfgs) + len(pairs))
     res.cov("distinct_nontrivial", len(cfgs) - 2)
     res.cov("distinct_outcomes", len(shapes))
     res.cov("rule", "configurations = each field varied over its full domain against defaults (builder over 9 strings; env maps of <=2 keys x 10 value strings incl. '', leading dashes, spaces, '=', Unicode, shell metacharacters; buildpack lists of length <=3; relative/absolute app dir; preprocessor; entrypoint None+10 strings; commands of <=2 elements; all port subsets of {80,8080,65535}; <=2 bind mounts over 4 paths) and, in thorough, all pairs of fields over thinned domains; each run through the real TestRunner with stand-in CLIs; the logged argv is decoded with reference parsers and compared with the configuration; non-trivial = non-default configurations")
